@@ -1,0 +1,444 @@
+//go:build verif
+
+package table
+
+import (
+	"github.com/named-data/ndnd/dv/config"
+	enc "github.com/named-data/ndnd/std/encoding"
+)
+
+// Contracts for the gcv verifier. Compiled only with build tag `verif`.
+
+// lexLE: (c1,h1) <= (c2,h2) in the lexicographic order on (cost, next-hop hash).
+func lexLE(c1 uint64, h1 uint64, c2 uint64, h2 uint64) bool {
+	return c1 < c2 || (c1 == c2 && h1 <= h2)
+}
+
+// hasHop: ghost getter, membership of a next hop in the cost map of an entry.
+func (e *RibEntry) hasHop(k uint64) bool {
+	_, ok := e.costs[k]
+	return ok
+}
+
+// specBest1: (c1,h1) is the lexicographic minimum of the (cost,hop) pairs of e.costs together
+// with the sentinel (CostInfinity, 0).
+func specBest1(e *RibEntry, c1 uint64, h1 uint64) bool {
+	return lexLE(c1, h1, config.CostInfinity, 0) &&
+		((c1 == config.CostInfinity && h1 == 0) || (e.hasHop(h1) && e.costs[h1] == c1)) &&
+		forall(func(k uint64) bool { return implies(e.hasHop(k), lexLE(c1, h1, e.costs[k], k)) })
+}
+
+// specBest2: (c2,h2) is the minimum over the rest: the pairs of e.costs other than the one
+// chosen as (c1,h1), together with the sentinel.
+func specBest2(e *RibEntry, c1 uint64, h1 uint64, c2 uint64, h2 uint64) bool {
+	return lexLE(c1, h1, c2, h2) && lexLE(c2, h2, config.CostInfinity, 0) &&
+		((c2 == config.CostInfinity && h2 == 0) || (e.hasHop(h2) && e.costs[h2] == c2 && h2 != h1)) &&
+		forall(func(k uint64) bool {
+			return implies(e.hasHop(k) && !(k == h1 && e.costs[k] == c1), lexLE(c2, h2, e.costs[k], k))
+		})
+}
+
+// entryMin: the four cached fields of the entry are that minimum and second minimum.
+func entryMin(e *RibEntry) bool {
+	return specBest1(e, e.lowest1, e.nextHop1) && specBest2(e, e.lowest1, e.nextHop1, e.lowest2, e.nextHop2)
+}
+
+//@ func (*RibEntry).refresh
+//@   requires e.rib != nil
+//@   modifies e.dirty, e.lowest1, e.lowest2, e.nextHop1, e.nextHop2
+//@   ensures !e.dirty
+//@   ensures specBest1(e, e.lowest1, e.nextHop1)
+//@   ensures specBest2(e, e.lowest1, e.nextHop1, e.lowest2, e.nextHop2)
+//@   ensures result == (old(e.lowest1) != e.lowest1 || old(e.lowest2) != e.lowest2 || old(e.nextHop1) != e.nextHop1 || old(e.nextHop2) != e.nextHop2)
+//@   loop 1 invariant lexLE(lowest1, nextHop1, lowest2, nextHop2) && lexLE(lowest2, nextHop2, config.CostInfinity, 0)
+//@   loop 1 invariant (lowest1 == config.CostInfinity && nextHop1 == 0) || (visited(nextHop1) && e.hasHop(nextHop1) && e.costs[nextHop1] == lowest1)
+//@   loop 1 invariant (lowest2 == config.CostInfinity && nextHop2 == 0) || (visited(nextHop2) && e.hasHop(nextHop2) && e.costs[nextHop2] == lowest2 && nextHop2 != nextHop1)
+//@   loop 1 invariant forall(func(k uint64) bool { return visited(k) && e.hasHop(k) ==> lexLE(lowest1, nextHop1, e.costs[k], k) })
+//@   loop 1 invariant forall(func(k uint64) bool { return visited(k) && e.hasHop(k) && !(k == nextHop1 && e.costs[k] == lowest1) ==> lexLE(lowest2, nextHop2, e.costs[k], k) })
+
+// ---------------------------------------------------------------------------------------
+// Name hashing (assumption A-HASH): enc.Name values stored in the tables are immutable, and
+// Name.Hash is a deterministic function of the name; Clone preserves it. specNameHash is an
+// uninterpreted function (the self-recursive body unfolds to the tautology f(n) == f(n)).
+// ---------------------------------------------------------------------------------------
+
+// (the contracts of Name.Hash and Name.Clone live in std/encoding: enc.SpecNameHash)
+
+// ---------------------------------------------------------------------------------------
+// RibEntry.Set
+// ---------------------------------------------------------------------------------------
+
+//@ func (*RibEntry).Set
+//@   requires e.rib != nil && e.costs != nil
+//@   modifies e.costs[*], e.dirty, e.lowest1, e.lowest2, e.nextHop1, e.nextHop2
+//@   ensures e.hasHop(nextHop) && e.costs[nextHop] == cost
+//@   ensures forall(func(k uint64) bool { return k != nextHop ==> e.hasHop(k) == old(e.hasHop(k)) && e.costs[k] == old(e.costs[k]) })
+//@   ensures old(e.hasHop(nextHop) && e.costs[nextHop] == cost) ==> !result && e.dirty == old(e.dirty) && e.lowest1 == old(e.lowest1) && e.lowest2 == old(e.lowest2) && e.nextHop1 == old(e.nextHop1) && e.nextHop2 == old(e.nextHop2)
+//@   ensures !old(e.hasHop(nextHop) && e.costs[nextHop] == cost) ==> !e.dirty && entryMin(e)
+//@   ensures !result ==> e.lowest1 == old(e.lowest1) && e.lowest2 == old(e.lowest2) && e.nextHop1 == old(e.nextHop1) && e.nextHop2 == old(e.nextHop2)
+//@   ensures old(!e.dirty && entryMin(e)) ==> !e.dirty && entryMin(e)
+
+// ---------------------------------------------------------------------------------------
+// Rib: representation invariant
+// ---------------------------------------------------------------------------------------
+
+// hasEntry: ghost getter, membership of a destination hash in the RIB.
+func (r *Rib) hasEntry(h uint64) bool {
+	_, ok := r.entries[h]
+	return ok
+}
+
+// entryWf: structural well-formedness of the entry stored under key h of r.
+func entryWf(r *Rib, e *RibEntry, h uint64) bool {
+	return e != nil && e.rib == r && e.costs != nil && enc.SpecNameHash(e.name) == h
+}
+
+// ribInv: every entry is well-formed and every non-dirty entry caches the minimum and second
+// minimum of its cost map.
+func ribInv(r *Rib) bool {
+	return r.entries != nil && r.neighbors != nil && forall(func(h uint64) bool {
+		return implies(r.hasEntry(h), entryWf(r, r.entries[h], h) && implies(!r.entries[h].dirty, entryMin(r.entries[h])))
+	})
+}
+
+// ribClean: no entry is dirty.
+func ribClean(r *Rib) bool {
+	return forall(func(h uint64) bool { return implies(r.hasEntry(h), !r.entries[h].dirty) })
+}
+
+// ribPruned: no entry is unreachable (what must hold after Prune, before Advert).
+func ribPruned(r *Rib) bool {
+	return forall(func(h uint64) bool { return implies(r.hasEntry(h), r.entries[h].lowest1 < config.CostInfinity) })
+}
+
+// Separation (cannot be a Go spec function: Go has no map equality): distinct entries own distinct cost maps.
+//   forall(func(a uint64, b uint64) bool { return r.hasEntry(a) && r.hasEntry(b) && a != b ==> r.entries[a].costs != r.entries[b].costs })
+
+//@ func (*Rib).Set
+//@   requires ribInv(r)
+//@   requires forall(func(a uint64, b uint64) bool { return r.hasEntry(a) && r.hasEntry(b) && a != b ==> r.entries[a].costs != r.entries[b].costs })
+//@   modifies r.entries[*], r.neighbors[*], r.entries[enc.SpecNameHash(destName)].costs[*], r.entries[enc.SpecNameHash(destName)].dirty, r.entries[enc.SpecNameHash(destName)].lowest1, r.entries[enc.SpecNameHash(destName)].lowest2, r.entries[enc.SpecNameHash(destName)].nextHop1, r.entries[enc.SpecNameHash(destName)].nextHop2
+//@   ensures ribInv(r)
+//@   ensures forall(func(a uint64, b uint64) bool { return r.hasEntry(a) && r.hasEntry(b) && a != b ==> r.entries[a].costs != r.entries[b].costs })
+//@   ensures r.hasEntry(enc.SpecNameHash(destName)) && r.entries[enc.SpecNameHash(destName)].hasHop(enc.SpecNameHash(nextHop)) && r.entries[enc.SpecNameHash(destName)].costs[enc.SpecNameHash(nextHop)] == cost
+//@   ensures forall(func(h uint64) bool { return h != enc.SpecNameHash(destName) ==> r.hasEntry(h) == old(r.hasEntry(h)) && r.entries[h] == old(r.entries[h]) })
+//@   ensures old(r.hasEntry(enc.SpecNameHash(destName))) ==> r.entries[enc.SpecNameHash(destName)] == old(r.entries[enc.SpecNameHash(destName)])
+//@   ensures old(ribClean(r)) ==> ribClean(r)
+
+//@ func (*Rib).RemoveNextHop
+//@   requires ribInv(r)
+//@   requires forall(func(a uint64, b uint64) bool { return r.hasEntry(a) && r.hasEntry(b) && a != b ==> r.entries[a].costs != r.entries[b].costs })
+//@   modifies all(ghostCostMap), all(RibEntry.dirty), all(RibEntry.lowest1), all(RibEntry.lowest2), all(RibEntry.nextHop1), all(RibEntry.nextHop2)
+//@   ensures ribInv(r)
+//@   ensures forall(func(h uint64) bool { return r.hasEntry(h) ==> !r.entries[h].hasHop(enc.SpecNameHash(nextHop)) })
+//@   ensures forall(func(h uint64, k uint64) bool { return r.hasEntry(h) && k != enc.SpecNameHash(nextHop) ==> r.entries[h].hasHop(k) == old(r.entries[h].hasHop(k)) && r.entries[h].costs[k] == old(r.entries[h].costs[k]) })
+//@   ensures forall(func(h uint64) bool { return r.hasEntry(h) && !old(r.entries[h].dirty) ==> !r.entries[h].dirty })
+//@   ensures !result ==> forall(func(h uint64) bool { return r.hasEntry(h) ==> r.entries[h].lowest1 == old(r.entries[h].lowest1) && r.entries[h].lowest2 == old(r.entries[h].lowest2) && r.entries[h].nextHop1 == old(r.entries[h].nextHop1) && r.entries[h].nextHop2 == old(r.entries[h].nextHop2) })
+//@   loop 1 invariant ribInv(r)
+//@   loop 1 invariant forall(func(h uint64) bool { return visited(h) && r.hasEntry(h) ==> !r.entries[h].hasHop(nextHopHash) })
+//@   loop 1 invariant forall(func(h uint64, k uint64) bool { return r.hasEntry(h) && k != nextHopHash ==> r.entries[h].hasHop(k) == old(r.entries[h].hasHop(k)) && r.entries[h].costs[k] == old(r.entries[h].costs[k]) })
+//@   loop 1 invariant forall(func(h uint64) bool { return r.hasEntry(h) && !old(r.entries[h].dirty) ==> !r.entries[h].dirty })
+//@   loop 1 invariant !dirty ==> forall(func(h uint64) bool { return r.hasEntry(h) ==> r.entries[h].lowest1 == old(r.entries[h].lowest1) && r.entries[h].lowest2 == old(r.entries[h].lowest2) && r.entries[h].nextHop1 == old(r.entries[h].nextHop1) && r.entries[h].nextHop2 == old(r.entries[h].nextHop2) })
+
+//@ func (*Rib).DirtyResetNextHop
+//@   requires ribInv(r)
+//@   requires forall(func(a uint64, b uint64) bool { return r.hasEntry(a) && r.hasEntry(b) && a != b ==> r.entries[a].costs != r.entries[b].costs })
+//@   modifies all(ghostCostMap), all(RibEntry.dirty)
+//@   ensures ribInv(r)
+//@   ensures forall(func(h uint64) bool { return r.hasEntry(h) ==> r.entries[h].dirty && r.entries[h].hasHop(enc.SpecNameHash(nextHop)) && r.entries[h].costs[enc.SpecNameHash(nextHop)] == config.CostInfinity })
+//@   ensures forall(func(h uint64, k uint64) bool { return r.hasEntry(h) && k != enc.SpecNameHash(nextHop) ==> r.entries[h].hasHop(k) == old(r.entries[h].hasHop(k)) && r.entries[h].costs[k] == old(r.entries[h].costs[k]) })
+//@   loop 1 invariant ribInv(r)
+//@   loop 1 invariant forall(func(h uint64) bool { return visited(h) && r.hasEntry(h) ==> r.entries[h].dirty && r.entries[h].hasHop(nextHopHash) && r.entries[h].costs[nextHopHash] == config.CostInfinity })
+//@   loop 1 invariant forall(func(h uint64, k uint64) bool { return r.hasEntry(h) && k != nextHopHash ==> r.entries[h].hasHop(k) == old(r.entries[h].hasHop(k)) && r.entries[h].costs[k] == old(r.entries[h].costs[k]) })
+
+//@ func (*Rib).Prune
+//@   requires ribInv(r)
+//@   requires forall(func(a uint64, b uint64) bool { return r.hasEntry(a) && r.hasEntry(b) && a != b ==> r.entries[a].costs != r.entries[b].costs })
+//@   modifies r.entries[*], all(RibEntry.dirty), all(RibEntry.lowest1), all(RibEntry.lowest2), all(RibEntry.nextHop1), all(RibEntry.nextHop2)
+//@   ensures ribInv(r) && ribClean(r) && ribPruned(r)
+//@   ensures forall(func(a uint64, b uint64) bool { return r.hasEntry(a) && r.hasEntry(b) && a != b ==> r.entries[a].costs != r.entries[b].costs })
+//@   ensures forall(func(h uint64) bool { return r.hasEntry(h) ==> old(r.hasEntry(h)) && r.entries[h] == old(r.entries[h]) })
+//@   ensures forall(func(h uint64) bool { return old(r.hasEntry(h)) ==> !old(r.entries[h]).dirty && entryMin(old(r.entries[h])) && r.hasEntry(h) == (old(r.entries[h]).lowest1 < config.CostInfinity) })
+//@   loop 1 invariant ribInv(r)
+//@   loop 1 invariant forall(func(h uint64) bool { return r.hasEntry(h) ==> old(r.hasEntry(h)) && r.entries[h] == old(r.entries[h]) })
+//@   loop 1 invariant forall(func(h uint64) bool { return visited(h) && r.hasEntry(h) ==> !r.entries[h].dirty && r.entries[h].lowest1 < config.CostInfinity })
+//@   loop 1 invariant forall(func(h uint64) bool { return old(r.hasEntry(h)) && !r.hasEntry(h) ==> !old(r.entries[h]).dirty && entryMin(old(r.entries[h])) && old(r.entries[h]).lowest1 == config.CostInfinity })
+//@   loop 1 invariant forall(func(h uint64) bool { return old(r.hasEntry(h)) ==> entryWf(r, old(r.entries[h]), h) })
+
+// "No advertisement ever lists a destination whose best cost is at or above infinity": on a pruned,
+// clean RIB every advertised entry has Cost < CostInfinity, and it is the cached minimum of some RIB entry.
+//
+//@ func (*Rib).Advert
+//@   requires ribInv(r) && ribClean(r) && ribPruned(r)
+//@   ensures fresh(result)
+//@   ensures [no_infinite_cost] forallIn(0, len(result.Entries), func(i int) bool { return result.Entries[i] != nil && result.Entries[i].Cost < config.CostInfinity })
+//@   ensures [best_le_second] forallIn(0, len(result.Entries), func(i int) bool { return result.Entries[i].Cost <= result.Entries[i].OtherCost })
+//@   ensures [from_rib] forallIn(0, len(result.Entries), func(i int) bool { return exists(func(h uint64) bool { return r.hasEntry(h) && result.Entries[i].Cost == r.entries[h].lowest1 && result.Entries[i].OtherCost == r.entries[h].lowest2 && result.Entries[i].Destination != nil && sameSlice(result.Entries[i].Destination.Name, r.entries[h].name) && result.Entries[i].NextHop != nil && sameSlice(result.Entries[i].NextHop.Name, r.neighbors[r.entries[h].nextHop1]) }) })
+//@   loop 1 invariant fresh(advert)
+//@   loop 1 invariant forallIn(0, len(advert.Entries), func(i int) bool { return advert.Entries[i] != nil && advert.Entries[i].Cost < config.CostInfinity })
+//@   loop 1 invariant forallIn(0, len(advert.Entries), func(i int) bool { return advert.Entries[i].Cost <= advert.Entries[i].OtherCost })
+//@   loop 1 invariant forallIn(0, len(advert.Entries), func(i int) bool { return exists(func(h uint64) bool { return r.hasEntry(h) && advert.Entries[i].Cost == r.entries[h].lowest1 && advert.Entries[i].OtherCost == r.entries[h].lowest2 && advert.Entries[i].Destination != nil && sameSlice(advert.Entries[i].Destination.Name, r.entries[h].name) && advert.Entries[i].NextHop != nil && sameSlice(advert.Entries[i].NextHop.Name, r.neighbors[r.entries[h].nextHop1]) }) })
+
+//@ func (*Rib).Has
+//@   requires ribInv(r)
+//@   ensures result == (r.hasEntry(enc.SpecNameHash(destName)) && r.entries[enc.SpecNameHash(destName)].lowest1 < config.CostInfinity)
+
+// (A-MEM: a map cannot hold 2^56 entries; the engine gives len(map) no upper bound.)
+//@ func (*Rib).Entries
+//@   requires ribInv(r)
+//@   assume len(r.entries) <= 72057594037927936
+//@   ensures fresh(result)
+//@   ensures forallIn(0, len(result), func(i int) bool { return result[i] != nil && result[i].lowest1 < config.CostInfinity && r.hasEntry(enc.SpecNameHash(result[i].name)) && r.entries[enc.SpecNameHash(result[i].name)] == result[i] })
+//@   loop 1 invariant fresh(entries)
+//@   loop 1 invariant forallIn(0, len(entries), func(i int) bool { return entries[i] != nil && entries[i].lowest1 < config.CostInfinity && r.hasEntry(enc.SpecNameHash(entries[i].name)) && r.entries[enc.SpecNameHash(entries[i].name)] == entries[i] })
+
+//@ func NewRib
+//@   ensures fresh(result) && ribInv(result) && ribClean(result) && ribPruned(result) && result.config == config
+//@   ensures forall(func(h uint64) bool { return !result.hasEntry(h) })
+
+// ---------------------------------------------------------------------------------------
+// fib.go
+// ---------------------------------------------------------------------------------------
+
+func (fib *Fib) hasPrefix(h uint64) bool {
+	_, ok := fib.prefixes[h]
+	return ok
+}
+
+func (fib *Fib) hasMark(h uint64) bool {
+	_, ok := fib.mark[h]
+	return ok
+}
+
+func (fib *Fib) hasName(h uint64) bool {
+	_, ok := fib.names[h]
+	return ok
+}
+
+// fibEntriesOK: a stored next-hop list is non-empty, every cost is finite, no face occurs twice.
+func fibEntriesOK(es []FibEntry) bool {
+	return len(es) > 0 &&
+		forallIn(0, len(es), func(i int) bool { return es[i].Cost < config.CostInfinity }) &&
+		forallIn(0, len(es), func(i int) bool {
+			return forallIn(0, len(es), func(j int) bool { return implies(i != j, es[i].FaceId != es[j].FaceId) })
+		})
+}
+
+// fibInv: representation invariant of the FIB mirror.
+func fibInv(fib *Fib) bool {
+	return fib.names != nil && fib.prefixes != nil && fib.mark != nil && fib.nfdc != nil &&
+		forall(func(h uint64) bool {
+			return implies(fib.hasPrefix(h), fib.hasName(h) && fib.names[h] != nil && fibEntriesOK(fib.prefixes[h]))
+		}) &&
+		forall(func(a uint64, b uint64) bool {
+			return implies(fib.hasPrefix(a) && fib.hasPrefix(b) && a != b, sliceArr(fib.prefixes[a]) != sliceArr(fib.prefixes[b]))
+		})
+}
+
+//@ func (*Fib).MarkH
+//@   requires fib.mark != nil
+//@   modifies fib.mark[*]
+//@   ensures fib.hasMark(name) && fib.mark[name]
+//@   ensures forall(func(k uint64) bool { return k != name ==> fib.hasMark(k) == old(fib.hasMark(k)) && fib.mark[k] == old(fib.mark[k]) })
+
+//@ func (*Fib).UnmarkAll
+//@   requires fib.mark != nil
+//@   modifies fib.mark[*]
+//@   ensures forall(func(k uint64) bool { return !fib.hasMark(k) && !fib.mark[k] })
+//@   loop 1 invariant forall(func(k uint64) bool { return visited(k) ==> !fib.hasMark(k) })
+
+// GetFibEntries: "the faces of that router's best and finite second-best next hops": entry 0 is (face of
+// nextHop1, lowest1), entry 1 is (face of nextHop2, lowest2); a next hop that is not a neighbour has face 0.
+//
+//@ func (*Rib).GetFibEntries
+//@   requires ribInv(rib) && rib.hasEntry(router) && nt != nil
+//@   ensures len(result) == 2 && fresh(result)
+//@   ensures result[0].Cost == rib.entries[router].lowest1 && result[1].Cost == rib.entries[router].lowest2
+//@   ensures result[0].FaceId == specFace(nt, rib.entries[router].nextHop1) && result[1].FaceId == specFace(nt, rib.entries[router].nextHop2)
+
+// UpdateH (C19): after the call the routes held for the prefix are exactly what newEntries prescribes:
+// one entry per face that occurs in newEntries with a finite cost, at the lowest such cost; nothing if there
+// is none (then the prefix, its mark and its name are dropped). Other prefixes are untouched.
+//
+//@ func (*Fib).UpdateH
+//@   requires fibInv(fib) && name != nil
+//@   requires len(newEntries) == 0 || sliceArr(newEntries) != sliceArr(fib.prefixes[nameH])
+//@   modifies fib.names[*], fib.prefixes[*], fib.mark[*], fib.prefixes[nameH][*]
+//@   ensures fibInv(fib)
+//@   ensures result == existsIn(0, len(newEntries), func(j int) bool { return newEntries[j].Cost < config.CostInfinity })
+//@   ensures result == fib.hasPrefix(nameH)
+//@   ensures !result ==> !fib.hasMark(nameH) && !fib.hasName(nameH)
+//@   ensures result ==> fresh(fib.prefixes[nameH])
+//@   ensures forallIn(0, len(fib.prefixes[nameH]), func(k int) bool { return existsIn(0, len(newEntries), func(j int) bool { return newEntries[j].FaceId == fib.prefixes[nameH][k].FaceId && newEntries[j].Cost == fib.prefixes[nameH][k].Cost }) })
+//@   ensures forallIn(0, len(fib.prefixes[nameH]), func(k int) bool { return forallIn(0, len(newEntries), func(j int) bool { return newEntries[j].FaceId == fib.prefixes[nameH][k].FaceId && newEntries[j].Cost < config.CostInfinity ==> fib.prefixes[nameH][k].Cost <= newEntries[j].Cost }) })
+//@   ensures forallIn(0, len(newEntries), func(j int) bool { return newEntries[j].Cost < config.CostInfinity ==> existsIn(0, len(fib.prefixes[nameH]), func(k int) bool { return fib.prefixes[nameH][k].FaceId == newEntries[j].FaceId }) })
+//@   ensures forall(func(h uint64) bool { return h != nameH ==> fib.hasPrefix(h) == old(fib.hasPrefix(h)) && sameSlice(fib.prefixes[h], old(fib.prefixes[h])) && fib.hasMark(h) == old(fib.hasMark(h)) && fib.mark[h] == old(fib.mark[h]) && fib.hasName(h) == old(fib.hasName(h)) })
+//@   ensures result ==> fib.hasMark(nameH) == old(fib.hasMark(nameH)) && fib.mark[nameH] == old(fib.mark[nameH])
+//@   loop 1 invariant -1 <= rangeindex && rangeindex+1 <= len(oldEntries)
+//@   loop 1 invariant forallIn(0, rangeindex+1, func(i int) bool { return oldEntries[i].Cost == config.CostInfinity })
+//@   loop 2 invariant len(oldEntries) >= old(len(fib.prefixes[nameH])) && (sliceArr(oldEntries) == old(sliceArr(fib.prefixes[nameH])) || fresh(oldEntries)) && (len(newEntries) == 0 || sliceArr(oldEntries) != sliceArr(newEntries))
+//@   loop 2 invariant forallIn(0, len(oldEntries), func(i int) bool { return forallIn(0, len(oldEntries), func(j int) bool { return i != j ==> oldEntries[i].FaceId != oldEntries[j].FaceId }) })
+//@   loop 2 invariant forallIn(0, len(oldEntries), func(i int) bool { return oldEntries[i].Cost <= config.CostInfinity })
+//@   loop 2 invariant forallIn(old(len(fib.prefixes[nameH])), len(oldEntries), func(i int) bool { return oldEntries[i].Cost < config.CostInfinity })
+//@   loop 2 invariant forallIn(0, len(oldEntries), func(i int) bool { return oldEntries[i].Cost < config.CostInfinity ==> existsIn(0, rangeindex+1, func(j int) bool { return newEntries[j].FaceId == oldEntries[i].FaceId && newEntries[j].Cost == oldEntries[i].Cost }) })
+//@   loop 2 invariant forallIn(0, len(oldEntries), func(i int) bool { return forallIn(0, rangeindex+1, func(j int) bool { return newEntries[j].FaceId == oldEntries[i].FaceId && newEntries[j].Cost < config.CostInfinity ==> oldEntries[i].Cost <= newEntries[j].Cost }) })
+//@   loop 2 invariant forallIn(0, rangeindex+1, func(j int) bool { return newEntries[j].Cost < config.CostInfinity ==> existsIn(0, len(oldEntries), func(i int) bool { return oldEntries[i].FaceId == newEntries[j].FaceId && oldEntries[i].Cost < config.CostInfinity }) })
+//@   loop 3 invariant forallIn(0, rangeindex+1, func(i int) bool { return oldEntries[i].FaceId != newEntry.FaceId })
+//@   loop 3 invariant forallIn(0, len(oldEntries), func(i int) bool { return oldEntries[i].Cost <= config.CostInfinity })
+//@   loop 3 invariant forallIn(old(len(fib.prefixes[nameH])), len(oldEntries), func(i int) bool { return oldEntries[i].Cost < config.CostInfinity })
+//@   loop 3 invariant forallIn(0, len(oldEntries), func(i int) bool { return oldEntries[i].Cost < config.CostInfinity ==> existsIn(0, rangeindex2+1, func(j int) bool { return newEntries[j].FaceId == oldEntries[i].FaceId && newEntries[j].Cost == oldEntries[i].Cost }) })
+//@   loop 3 invariant forallIn(0, len(oldEntries), func(i int) bool { return forallIn(0, rangeindex2+1, func(j int) bool { return newEntries[j].FaceId == oldEntries[i].FaceId && newEntries[j].Cost < config.CostInfinity ==> oldEntries[i].Cost <= newEntries[j].Cost }) })
+//@   loop 4 invariant fresh(finalEntries) && len(finalEntries) <= rangeindex+1
+//@   loop 4 invariant forallIn(0, len(finalEntries), func(k int) bool { return finalEntries[k].Cost < config.CostInfinity && existsIn(0, rangeindex+1, func(i int) bool { return oldEntries[i].FaceId == finalEntries[k].FaceId && oldEntries[i].Cost == finalEntries[k].Cost }) })
+//@   loop 4 invariant forallIn(0, rangeindex+1, func(i int) bool { return oldEntries[i].Cost < config.CostInfinity ==> existsIn(0, len(finalEntries), func(k int) bool { return finalEntries[k].FaceId == oldEntries[i].FaceId && finalEntries[k].Cost == oldEntries[i].Cost }) })
+//@   loop 4 invariant forallIn(0, len(finalEntries), func(k int) bool { return forallIn(0, len(finalEntries), func(l int) bool { return k != l ==> finalEntries[k].FaceId != finalEntries[l].FaceId }) })
+
+// RemoveUnmarked (C19): "nothing for ... prefixes that were withdrawn": every prefix that is not marked is
+// removed (through UpdateH with no next hops, which also unregisters its routes); marked prefixes stay as they are.
+//
+//@ func (*Fib).RemoveUnmarked
+//@   requires fibInv(fib)
+//@   modifies fib.names[*], fib.prefixes[*], fib.mark[*], all(ghostFibSlice)
+//@   ensures fibInv(fib)
+//@   ensures forall(func(h uint64) bool { return fib.hasPrefix(h) ==> old(fib.hasPrefix(h)) && fib.mark[h] && sameSlice(fib.prefixes[h], old(fib.prefixes[h])) })
+//@   ensures forall(func(h uint64) bool { return old(fib.hasPrefix(h)) && old(fib.mark[h]) ==> fib.hasPrefix(h) })
+//@   loop 1 invariant fibInv(fib)
+//@   loop 1 invariant forall(func(h uint64) bool { return fib.hasPrefix(h) ==> old(fib.hasPrefix(h)) && fib.mark[h] == old(fib.mark[h]) && sameSlice(fib.prefixes[h], old(fib.prefixes[h])) })
+//@   loop 1 invariant forall(func(h uint64) bool { return visited(h) && fib.hasPrefix(h) ==> fib.mark[h] })
+//@   loop 1 invariant forall(func(h uint64) bool { return old(fib.hasPrefix(h)) && old(fib.mark[h]) ==> fib.hasPrefix(h) })
+
+// ---------------------------------------------------------------------------------------
+// prefix_table.go
+// ---------------------------------------------------------------------------------------
+
+func (pt *PrefixTable) hasRouter(h uint64) bool {
+	_, ok := pt.routers[h]
+	return ok
+}
+
+func (r *PrefixTableRouter) hasPfx(k uint64) bool {
+	_, ok := r.Prefixes[k]
+	return ok
+}
+
+// ptInv: every router record is present with a prefix map.
+func ptInv(pt *PrefixTable) bool {
+	return pt.routers != nil && forall(func(h uint64) bool {
+		return implies(pt.hasRouter(h) && pt.routers[h] != nil, pt.routers[h].Prefixes != nil)
+	})
+}
+
+// Apply (C19, log replay): the router's prefix set P becomes specApply(P, ops): reset, then adds, then removes.
+// A key k is in the result iff no remove names it and (some add names it or (there was no reset and it was in P)).
+//
+//@ func (*PrefixTable).Apply
+//@   requires ptInv(pt) && ops != nil
+//@   requires forallIn(0, len(ops.PrefixOpAdds), func(i int) bool { return ops.PrefixOpAdds[i] != nil })
+//@   requires forallIn(0, len(ops.PrefixOpRemoves), func(i int) bool { return ops.PrefixOpRemoves[i] != nil })
+//@   modifies pt.routers[*], pt.routers[enc.SpecNameHash(ops.ExitRouter.Name)].Prefixes, pt.routers[enc.SpecNameHash(ops.ExitRouter.Name)].Prefixes[*]
+//@   ensures ptInv(pt)
+//@   ensures ops.ExitRouter == nil || len(ops.ExitRouter.Name) == 0 ==> !dirty
+//@   ensures ops.ExitRouter != nil && len(ops.ExitRouter.Name) != 0 ==> dirty == (ops.PrefixOpReset || len(ops.PrefixOpAdds) > 0 || len(ops.PrefixOpRemoves) > 0)
+//@   ensures ops.ExitRouter != nil && len(ops.ExitRouter.Name) != 0 ==> pt.hasRouter(enc.SpecNameHash(ops.ExitRouter.Name)) && pt.routers[enc.SpecNameHash(ops.ExitRouter.Name)] != nil
+//@   ensures ops.ExitRouter != nil && len(ops.ExitRouter.Name) != 0 ==> forall(func(k uint64) bool { return pt.routers[enc.SpecNameHash(ops.ExitRouter.Name)].hasPfx(k) == (!existsIn(0, len(ops.PrefixOpRemoves), func(j int) bool { return enc.SpecNameHash(ops.PrefixOpRemoves[j].Name) == k }) && (existsIn(0, len(ops.PrefixOpAdds), func(i int) bool { return enc.SpecNameHash(ops.PrefixOpAdds[i].Name) == k }) || (!ops.PrefixOpReset && old(pt.hasRouter(enc.SpecNameHash(ops.ExitRouter.Name)) && pt.routers[enc.SpecNameHash(ops.ExitRouter.Name)] != nil && pt.routers[enc.SpecNameHash(ops.ExitRouter.Name)].hasPfx(k))))) })
+//@   loop 1 invariant router != nil && router.Prefixes != nil && (fresh(router.Prefixes) || (!ops.PrefixOpReset && router.Prefixes == old(pt.routers[enc.SpecNameHash(ops.ExitRouter.Name)].Prefixes)))
+//@   loop 1 invariant dirty == (ops.PrefixOpReset || rangeindex+1 > 0)
+//@   loop 1 invariant forall(func(k uint64) bool { return router.hasPfx(k) == (existsIn(0, rangeindex+1, func(i int) bool { return enc.SpecNameHash(ops.PrefixOpAdds[i].Name) == k }) || (!ops.PrefixOpReset && old(pt.hasRouter(enc.SpecNameHash(ops.ExitRouter.Name)) && pt.routers[enc.SpecNameHash(ops.ExitRouter.Name)] != nil && pt.routers[enc.SpecNameHash(ops.ExitRouter.Name)].hasPfx(k)))) })
+//@   loop 2 invariant router != nil && router.Prefixes != nil && (fresh(router.Prefixes) || (!ops.PrefixOpReset && router.Prefixes == old(pt.routers[enc.SpecNameHash(ops.ExitRouter.Name)].Prefixes)))
+//@   loop 2 invariant dirty == (ops.PrefixOpReset || len(ops.PrefixOpAdds) > 0 || rangeindex+1 > 0)
+//@   loop 2 invariant forall(func(k uint64) bool { return router.hasPfx(k) == (!existsIn(0, rangeindex+1, func(j int) bool { return enc.SpecNameHash(ops.PrefixOpRemoves[j].Name) == k }) && (existsIn(0, len(ops.PrefixOpAdds), func(i int) bool { return enc.SpecNameHash(ops.PrefixOpAdds[i].Name) == k }) || (!ops.PrefixOpReset && old(pt.hasRouter(enc.SpecNameHash(ops.ExitRouter.Name)) && pt.routers[enc.SpecNameHash(ops.ExitRouter.Name)] != nil && pt.routers[enc.SpecNameHash(ops.ExitRouter.Name)].hasPfx(k))))) })
+
+// publishOp bumps the sequence number, stores the encoded operation in the in-memory repo and may publish a
+// snapshot; it talks to the sync layer and the engine (interfaces, mutex): assumed to touch only these fields.
+//
+//@ func (*PrefixTable).publishOp
+//@   trusted
+//@   requires pt.me != nil && pt.config != nil
+//@   modifies pt.me.Known, pt.me.Latest, pt.snapshotAt, pt.repo[*]
+
+// Announce / Withdraw (C19): the router's own announced set gains / loses exactly the given name.
+//
+//@ func (*PrefixTable).Announce
+//@   requires pt.me != nil && pt.me.Prefixes != nil && pt.config != nil
+//@   modifies pt.me.Prefixes[*], pt.me.Known, pt.me.Latest, pt.snapshotAt, pt.repo[*]
+//@   ensures pt.me.hasPfx(enc.SpecNameHash(name)) && pt.me.Prefixes[enc.SpecNameHash(name)] != nil
+//@   ensures forall(func(k uint64) bool { return k != enc.SpecNameHash(name) ==> pt.me.hasPfx(k) == old(pt.me.hasPfx(k)) && pt.me.Prefixes[k] == old(pt.me.Prefixes[k]) })
+
+//@ func (*PrefixTable).Withdraw
+//@   requires pt.me != nil && pt.me.Prefixes != nil && pt.config != nil
+//@   modifies pt.me.Prefixes[*], pt.me.Known, pt.me.Latest, pt.snapshotAt, pt.repo[*]
+//@   ensures !pt.me.hasPfx(enc.SpecNameHash(name)) || pt.me.Prefixes[enc.SpecNameHash(name)] == nil
+//@   ensures forall(func(k uint64) bool { return k != enc.SpecNameHash(name) ==> pt.me.hasPfx(k) == old(pt.me.hasPfx(k)) && pt.me.Prefixes[k] == old(pt.me.Prefixes[k]) })
+
+// ---------------------------------------------------------------------------------------
+// neighbor_table.go (only what dv/dv/table_algo.go needs)
+// ---------------------------------------------------------------------------------------
+
+func (nt *NeighborTable) hasNb(h uint64) bool {
+	_, ok := nt.neighbors[h]
+	return ok
+}
+
+// ntInv: every neighbour record is non-nil and points back to its table.
+func ntInv(nt *NeighborTable) bool {
+	return nt.neighbors != nil && nt.config != nil && forall(func(h uint64) bool {
+		return implies(nt.hasNb(h), nt.neighbors[h] != nil && nt.neighbors[h].nt == nt)
+	})
+}
+
+//@ func (*NeighborTable).GetAll
+//@   requires ntInv(nt)
+//@   assume len(nt.neighbors) <= 72057594037927936
+//@   ensures fresh(result)
+//@   ensures forallIn(0, len(result), func(i int) bool { return result[i] != nil && result[i].nt == nt })
+//@   loop 1 invariant fresh(neighbors)
+//@   loop 1 invariant forallIn(0, len(neighbors), func(i int) bool { return neighbors[i] != nil && neighbors[i].nt == nt })
+
+// Remove unregisters the neighbour's routes (closures over nfdc.Exec, a scan of all neighbours) and deletes
+// the record: assumed to touch only the neighbour table and the per-neighbour face fields.
+//
+//@ func (*NeighborTable).Remove
+//@   trusted
+//@   requires ntInv(nt)
+//@   modifies nt.neighbors[*], all(NeighborState.Advert), all(NeighborState.faceId), all(NeighborState.isFaceActive)
+//@   ensures ntInv(nt)
+
+// ghostCostMap names the type of RibEntry.costs for `modifies all(...)` clauses.
+type ghostCostMap = map[uint64]uint64
+
+// ghostFibSlice names the element storage of all next-hop lists for `modifies all(...)` clauses.
+type ghostFibSlice = []FibEntry
+
+func implies(a, b bool) bool { return !a || b }
+
+func forall(f any) bool { panic("ghost") }
+
+func exists(f any) bool { panic("ghost") }
+
+func forallIn(lo, hi int, f func(int) bool) bool {
+	for i := lo; i < hi; i++ {
+		if !f(i) {
+			return false
+		}
+	}
+	return true
+}
+
+func sliceArr(s any) int { panic("ghost") }
+
+func existsIn(lo, hi int, f func(int) bool) bool {
+	for i := lo; i < hi; i++ {
+		if f(i) {
+			return true
+		}
+	}
+	return false
+}
+
+// specFace: the face of neighbour h, 0 if h is not a neighbour.
+func specFace(nt *NeighborTable, h uint64) uint64 {
+	if nt.neighbors[h] != nil {
+		return nt.neighbors[h].faceId
+	}
+	return 0
+}
